@@ -67,6 +67,16 @@ HAND = [
    "definitions": {"Timestamp": {"type": "object", "properties": {"secs": {"type": "integer"}}},
                    "timestamp": {"type": "object", "properties": {"secs": {"type": "integer"}}},
                    "Event": {"type": "object", "properties": {"at": _ref("Timestamp"), "until": _ref("timestamp")}}}}),
+ # subschemas that carry the x-rust-type extension (honoured or not depending on the crate policy of the run): a conversion or
+ # a replacement registered for them applies under EVERY crate policy
+ ("xrust", {"title": "Root", "type": "object", "required": ["where"], "properties": {
+     "where": {"type": "string", "x-rust-type": {"crate": "std", "version": "1.0.0", "path": "std::path::PathBuf"}},
+     "addrs": {"type": "array", "items": {"type": "string", "x-rust-type": {"crate": "std", "version": "1.0.0", "path": "std::net::IpAddr"}}},
+     "byname": {"type": "object", "additionalProperties": {"type": "string", "description": "a path", "x-rust-type": {"crate": "std", "version": "1.0.0", "path": "std::path::PathBuf"}}},
+     "d": _ref("Dir"), "plain": {"type": "string", "maxLength": 9}},
+   "definitions": {
+     "Dir": {"type": "string", "x-rust-type": {"crate": "std", "version": "1.0.0", "path": "std::path::PathBuf"}},
+     "Peer": {"type": "object", "properties": {"ip": {"type": "string", "x-rust-type": {"crate": "std", "version": "1.0.0", "path": "std::net::Ipv4Addr"}}, "n": {"type": "integer"}}}}}),
  # a member inherited through allOf and declared again (to make it required, to document it): the two declarations refer to the
  # same definition and differ in annotations at most; the definitions are of kinds a merge does not reproduce literally
  ("redeclare", {"title": "Root", "type": "object", "properties": {"d": _ref("Derived"), "e": _ref("Derived2"), "f": _ref("Derived3")},
@@ -254,8 +264,9 @@ def ref_uses(doc, defname):
         if ps: out.append((D, ps))
     return out
 
-def draw_plans(rng, tag, doc, base, n, thorough):
-    """settings assignments drawn from the document's own definitions / subschemas (base = default-settings answer)"""
+def draw_plans(rng, tag, doc, base, n, thorough, ambient=None):
+    """settings assignments drawn from the document's own definitions / subschemas (base = the answer under the ambient settings,
+    by default none); `ambient` (a crate policy) is part of every assignment drawn and of the base run alike"""
     es = irutil.entries(base["dump"]); nm = irutil.named(base["dump"]); r2i = base["dump"]["ref_to_id"]
     plans = []
     defs = [(k, s) for k, s, _ in def_items(doc)]
@@ -264,9 +275,11 @@ def draw_plans(rng, tag, doc, base, n, thorough):
     conv_c = [c for c in container_positions(doc, base) if convertible(c[1])]
     patch_c = sorted(nm)
     def orth(compilable):
-        st = {}
+        st = copy.deepcopy(ambient) if ambient else {}
         if rng.random() < 0.5: st["struct_builder"] = True
-        d = rng.choice([[], [], ["PartialEq"], ["PartialEq"]] + ([] if compilable else [["JsonSchema"], ["PartialEq", "Hash"], ["::schemars::JsonSchema", "Eq"]]))
+        d = rng.choice([[], [], ["PartialEq"], ["PartialEq"]] + ([] if compilable else [["JsonSchema"], ["PartialEq", "Hash"], ["::schemars::JsonSchema", "Eq"],
+                                                                                   # other macros that share the NAME of a derive typify applies itself
+                                                                                   ["::rkyv::Serialize"], ["::derive_more::Debug", "PartialEq"], ["::miniserde::Deserialize", "::rkyv::Serialize"]]))
         if d: st["derives"] = d
         m = rng.choice([None, HASHMAP, BTREEMAP, BTREEMAP] + ([] if compilable else [INDEXMAP, INDEXMAP]))
         if m: st["map_type"] = m
@@ -314,6 +327,7 @@ def draw_plans(rng, tag, doc, base, n, thorough):
             pd = []
             if mode != "rename":
                 pd = ["PartialEq"] if (leaf or "PartialEq" in st.get("derives", [])) else (["Hash", "PartialEq"] if not compilable else [])
+                if not compilable and rng.random() < 0.3: pd = pd + [rng.choice(["::rkyv::Deserialize", "::derive_more::Clone", "::other::Serialize"])]
             p = {"name": old, "derives": pd}
             if mode != "derives" or not pd: p["rename"] = new
             st["patch"] = [p]
@@ -571,7 +585,7 @@ def compiled_stage(ctx, plans, ans, base_of, budget):
         targets = targets[:6]
         if not targets: continue
         if bi not in base_cases:
-            base_cases[bi] = b.add_case(plans[bi].request["calls"], {}, tag=plans[bi].tag, ops_types=set())
+            base_cases[bi] = b.add_case(plans[bi].request["calls"], plans[bi].settings, tag=plans[bi].tag, ops_types=set())
         c0 = base_cases[bi]
         c0.ops_types |= {t[0] for t in targets}
         c1 = b.add_case(p.request["calls"], p.settings, tag=p.tag, ops_types={t[1] for t in targets})
@@ -629,14 +643,22 @@ def usable(a):
 def run(ctx):
     st = vlib.proof_stage(ctx, "C14", PROOF_TARGETS, PROOF_FILES, slices=["ir"])
     thorough = ctx.tier == "thorough"
-    docs = documents(ctx)
-    bases = m2.tvh_ir([{"settings": {}, "calls": [{"root": d}]} for _, d in docs])
+    docs = [(tag, d, {}) for tag, d in documents(ctx)]
+    # documents with x-rust-type subschemas again under the crate policies that honour the extension: what replace / convert /
+    # patch promise does not depend on the crate policy of the run (the base run of each variant has the same policy)
+    for tag, d, _ in list(docs):
+        if '"x-rust-type"' in json.dumps(d):
+            crates = sorted({x["crate"] for _, x in gen.iter_schemas(d) if isinstance(x, dict) and isinstance(x.get("x-rust-type"), dict)
+                             for x in [x["x-rust-type"]] if isinstance(x.get("crate"), str)})
+            docs.append((tag + "@allow", d, {"unknown_crates": "allow"}))
+            if crates: docs.append((tag + "@crates", d, {"crates": [{"name": c, "version": "*"} for c in crates]}))
+    bases = m2.tvh_ir([{"settings": amb, "calls": [{"root": d}]} for _, d, amb in docs])
     plans = []; base_of = {}
-    for (tag, doc), b in zip(docs, bases):
+    for (tag, doc, amb), b in zip(docs, bases):
         if not usable(b): continue
-        bi = len(plans); plans.append(Plan(tag + "/default", doc, {}, None)); base_of[bi] = bi
+        bi = len(plans); plans.append(Plan(tag + "/default", doc, copy.deepcopy(amb), None)); base_of[bi] = bi
         nplans = (10 if thorough else 5) if not tag.startswith("hand:") else max(24 if thorough else 12, 4 * len(doc.get("definitions") or {}))
-        for p in draw_plans(ctx.rng, tag, doc, b, nplans, thorough):
+        for p in draw_plans(ctx.rng, tag, doc, b, nplans, thorough, ambient=amb):
             base_of[len(plans)] = bi; plans.append(p)
     raw = m2.tvh_ir([p.request for p in plans])
     ans = [a if usable(a) else None for a in raw]
